@@ -38,7 +38,7 @@ func (g *G) switchAgain(c *gctx) []*N {
 	flt := func(f float64) *N { return &N{K: "flt", I: int64(math.Float64bits(f))} }
 	see := func(e *N) *N { return &N{K: "expr", Ns: []*N{P1(g.id(), e)}} }
 
-	boolFam := g.chance(12)
+	boolFam := g.tenths(1)
 	nc := g.n(2, 5, "swa_cases")
 	ns := g.n(2, 6, "swa_passes")
 	form := g.n(0, 5, "swa_loop") // 0,1 for-in over a literal  2 for-in over a variable  3 C-style over an index  4 for cond over an index  5 descending counter
@@ -50,20 +50,18 @@ func (g *G) switchAgain(c *gctx) []*N {
 	// ---- spellings ----
 	// lit(v): one of the spellings of the number v that are constants
 	lit := func(v int64) *N {
-		switch r := g.n(0, 19, "swa_spell"); {
-		case r < 10:
+		switch r := g.n(0, 9, "swa_spell"); {
+		case r < 5:
 			return Int(v)
-		case r < 14:
+		case r < 7:
 			g.feat("switch_again_float_spelling")
 			return flt(float64(v))
-		case r < 17:
+		case r < 9:
 			g.feat("switch_again_numeral_string_spelling")
 			return Str(fmt.Sprint(v))
-		case r < 18:
+		default:
 			g.feat("switch_again_numeral_string_with_fraction_spelling")
 			return Str(fmt.Sprintf("%d.0", v))
-		default:
-			return Int(v)
 		}
 	}
 	usesA, usesB := false, false
@@ -162,7 +160,7 @@ func (g *G) switchAgain(c *gctx) []*N {
 		i := g.n(0, j-1, "swa_earlier")
 		v := int64(g.n(1, 4, "swa_shared"))
 		w := v + 1
-		if form != 5 && g.chance(50) {
+		if form != 5 && g.tenths(5) {
 			w = v - 1
 		}
 		for ci := range cases {
@@ -171,7 +169,7 @@ func (g *G) switchAgain(c *gctx) []*N {
 				if ci < j && u == w {
 					continue
 				}
-				if g.chance(12) {
+				if g.tenths(1) {
 					cases[ci] = append(cases[ci], other())
 					continue
 				}
@@ -188,7 +186,7 @@ func (g *G) switchAgain(c *gctx) []*N {
 			cases[ci] = append(cases[ci][:at], append([]*N{e}, cases[ci][at:]...)...)
 		}
 		ins(i, lit(v))
-		if g.chance(50) {
+		if g.tenths(5) {
 			ins(j, lit(v))
 			ins(j, lit(w))
 		} else {
@@ -213,7 +211,7 @@ func (g *G) switchAgain(c *gctx) []*N {
 				case at + 1:
 					subs = append(subs, lit(v))
 				default:
-					if g.chance(10) {
+					if g.tenths(1) {
 						subs = append(subs, other())
 					} else {
 						subs = append(subs, lit(int64(g.n(0, 6, "swa_val"))))
@@ -271,7 +269,7 @@ func (g *G) switchAgain(c *gctx) []*N {
 		g.feat("switch_again_small_universe")
 		for ci := range cases {
 			for n := g.n(1, 3, "swa_exprs"); n > 0; n-- {
-				if g.chance(10) {
+				if g.tenths(1) {
 					cases[ci] = append(cases[ci], other())
 				} else {
 					cases[ci] = append(cases[ci], spell(int64(g.n(1, 3, "swa_val"))))
@@ -307,7 +305,7 @@ func (g *G) switchAgain(c *gctx) []*N {
 	lc.inLoop = true
 
 	// ---- case bodies ----
-	useAcc := g.chance(35)
+	useAcc := g.tenths(4)
 	if useAcc {
 		g.feat("switch_again_cases_logged_in_a_string")
 	}
@@ -315,12 +313,12 @@ func (g *G) switchAgain(c *gctx) []*N {
 		// the assignment that makes the earlier case's variable equal the subject
 		return &N{K: "let", Ps: []string{va}, Ns: []*N{Int(coinS)}}
 	}
-	assignInCase := coinJ >= 0 && g.chance(50)
+	assignInCase := coinJ >= 0 && g.tenths(5)
 	mkBody := func(tag string, ci int) []*N {
 		var body []*N
 		if useAcc {
 			body = append(body, &N{K: "let", Ps: []string{acc}, Ns: []*N{Bin("+", Id(acc), Str(tag))}})
-			if g.chance(30) {
+			if g.tenths(3) {
 				body = append(body, see(Str(tag)))
 			}
 		} else {
@@ -331,31 +329,31 @@ func (g *G) switchAgain(c *gctx) []*N {
 			body = append(body, coincideAssign())
 			g.feat("switch_again_variable_assigned_in_a_case_body")
 		}
-		if !boolFam && (usesA || usesB) && g.chance(20) {
+		if !boolFam && (usesA || usesB) && g.tenths(2) {
 			nm := va
-			if usesB && (!usesA || g.chance(50)) {
+			if usesB && (!usesA || g.tenths(5)) {
 				nm = vb
 			}
 			g.feat("switch_again_variable_assigned_in_a_case_body")
-			if g.chance(50) {
+			if g.tenths(5) {
 				body = append(body, &N{K: "let", Ps: []string{nm}, Ns: []*N{Bin("+", Id(nm), Int(1))}})
 			} else {
 				body = append(body, &N{K: "let", Ps: []string{nm}, Ns: []*N{Int(int64(g.n(0, 5, "swa_set")))}})
 			}
 		}
-		if g.chance(12) {
+		if g.tenths(1) {
 			g.feat("switch_again_ordinary_statements_in_a_case_body")
 			kc := lc.sub()
 			body = append(body, g.block(kc, 1)...)
 		}
-		switch r := g.n(0, 99, "swa_exit"); {
-		case r < 8:
+		switch r := g.n(0, 9, "swa_exit"); {
+		case r == 9:
 			g.feat("switch_again_continue_in_a_case_body")
 			body = append(body, &N{K: "cont"})
-		case r < 12:
+		case r == 8:
 			g.feat("switch_again_break_in_a_case_body")
 			body = append(body, &N{K: "break"})
-		case r < 16 && inFn:
+		case r == 7 && inFn:
 			g.feat("switch_again_return_in_a_case_body")
 			body = append(body, &N{K: "ret", Ns: []*N{Str(tag + "!")}})
 		}
@@ -363,7 +361,7 @@ func (g *G) switchAgain(c *gctx) []*N {
 	}
 	sw := &N{K: "switch", S: "again"}
 	defAt := -1
-	if g.chance(70) {
+	if g.tenths(8) {
 		defAt = g.n(0, nc, "swa_defat")
 	}
 	for ci := 0; ci <= nc; ci++ {
@@ -386,11 +384,11 @@ func (g *G) switchAgain(c *gctx) []*N {
 		if coinJ >= 0 && !assignInCase {
 			g.feat("switch_again_variable_assigned_at_the_end_of_the_loop_body")
 			out = append(out, coincideAssign())
-		} else if !boolFam && usesA && g.chance(40) {
+		} else if !boolFam && usesA && g.tenths(4) {
 			g.feat("switch_again_variable_assigned_at_the_end_of_the_loop_body")
 			out = append(out, &N{K: "let", Ps: []string{va}, Ns: []*N{Bin("+", Id(va), Int(int64(1-2*g.n(0, 1, "swa_down"))))}})
 		}
-		if g.chance(15) {
+		if g.tenths(2) {
 			out = append(out, see(Id(sxOr(form, sx, si))))
 		}
 		return out
@@ -414,16 +412,16 @@ func (g *G) switchAgain(c *gctx) []*N {
 	default:
 		g.feat("switch_again_descending_counter_is_the_subject")
 		subject = Id(si)
-		if g.chance(30) {
+		if g.tenths(3) {
 			subject = P1(g.id(), Id(si))
 		}
 	}
-	if g.chance(10) && form != 4 {
+	if g.tenths(1) && form != 4 {
 		g.feat("switch_again_subject_is_probe_call")
 		subject = P1(g.id(), subject)
 	}
 	sw.Ns = append([]*N{subject}, sw.Ns...)
-	if g.chance(15) {
+	if g.tenths(1) {
 		kc := lc.sub()
 		loopBody = append(loopBody, g.block(kc, 1)...)
 	}
@@ -497,6 +495,10 @@ func (g *G) switchAgain(c *gctx) []*N {
 	return out
 }
 
+// tenths: true in about k cases of 10 (a draw from 0..9 is only mildly skewed towards small values,
+// a draw from 0..99 is not: there the lowest tenth comes up in four cases of ten).
+func (g *G) tenths(k int) bool { return g.n(0, 9, "tenths") >= 10-k }
+
 func sxOr(form int, sx, si string) string {
 	if form == 3 || form == 5 {
 		return si
@@ -511,7 +513,7 @@ func rapidOp(g *G) string {
 var swAgainName = regexp.MustCompile(`^sw[0-9]+[rf]$`)
 
 // InSwitchAgain reports whether the probe with the given id stands inside a switch statement made by
-// switchAgain (subject, case lists, bodies) or reports the string of case tags / the function result of that pattern
+// switchAgain (subject, case lists, bodies), in the loop that runs it or in the pattern's function, or reports the string of case tags / the function result of that pattern
 // - for failure signatures only.
 func InSwitchAgain(stmts []*N, probeID int64) bool {
 	found := false
@@ -520,7 +522,18 @@ func InSwitchAgain(stmts []*N, probeID int64) bool {
 		if n == nil || found {
 			return
 		}
-		if n.K == "switch" && n.S == "again" {
+		switch {
+		case n.K == "switch" && n.S == "again":
+			in = true
+		case (n.K == "forin" || n.K == "cfor" || n.K == "loop") && len(n.Ss) > 0:
+			// the loop that runs the pattern's switch
+			for _, k := range n.Ss[0] {
+				if k.K == "switch" && k.S == "again" {
+					in = true
+				}
+			}
+		case n.K == "fn" && swAgainName.MatchString(n.S), n.K == "let" && len(n.Ps) == 1 && swAgainName.MatchString(n.Ps[0]):
+			// the pattern's function
 			in = true
 		}
 		if n.K == "p" && n.I == probeID {
